@@ -27,6 +27,7 @@ EXPLANATION = (
     "sign(diag R) of the same factorisation. Amplitude arrays are checked by provenance (cc.t1[s], "
     "cc.t2[k]). "
     " PURE-1: no function of the interface modules stores into a module-level container, so nothing computed for one prep_afqmc call (possibly transformed in place by it) can leak into the next call in the same process. The FCIDUMP_chol reader side is decided on the value graph of _prep_afqmc with its private helpers evaluated in place (header positions by use: electron split, reshape dimensions), so that moving the file reading into a helper or packing the values into a NamedTuple changes nothing. "
+    " SYM-1: the array stored under 'ci2bb' is the one stored under 'ci2aa' with t1[0] -> t1[1] and t2[0] -> t2[2] (value numbering under that substitution). The options defaults, the files opened and the npz keys read are collected over _prep_afqmc together with the module-level helpers it calls. "
 )
 NOT_DECIDED = (
     "everything numerical: HF / FCI / CC energies, the frozen-core effective Hamiltonian, amplitude "
